@@ -26,4 +26,19 @@ CHECKS = {
          "for an injected exception and for KeyboardInterrupt with pause off / pause+'n' / pause+'y', crossed with output path shapes and all 16 subsets of pre-existing files. After each execution the harness audits open HDF5 handles, "
          "the sandbox and private temp directory, pre-existing files (bytes and mtime), the frames in the output (complete, labelled, timed and filled as RM-recorder demands before the stop) and the usability of the returned partial solution."),
    note="update replaced by the scripted environment; HDF5 write ops = create_group/__setitem__/attrs.__setitem__/Dataset.__setitem__/flush; resume ('y') checked for cleanliness only; extension-less or unwritable output paths are outside the alphabet (non-terminating path search, recorded in DESIGN.md)"),
+ "C12": dict(
+   engine="mc-core", category="model_checking", design_ref="DESIGN.md 3/C12",
+   technique="deviation-bounded exploration of environment answers (refusal counts, |psi|^2 changes) through the real update, against a reference model of the documented time-step rule and retry loop",
+   text=("The real TDGLSolver.update is called step by step with solve_for_psi_squared owned by the environment, so that the number of refusals and the |psi|^2 change of every step are scripted inputs; "
+         "for every setting in the alphabet (dt_init/dt_max, window, multiplier, max retries, adaptive on/off) all scripts with at most 1 (quick) / 2 (thorough) deviations from the default answer are executed and "
+         "the time step of every attempt, the returned and recorded dt, the bounds, and the exact point at which RuntimeError is raised are compared with RM-adaptive. A second family runs the unpatched solver "
+         "under drives that cause genuine refusals and checks every recorded dt against the rule using delta computed from the recorded frames."),
+   note="the environment replaces solve_for_psi_squared on the instance only; delta is computed from the arrays the environment handed out; scripts with more deviations rest on the rule depending only on (proposal, window contents)"),
+ "C11": dict(
+   engine="mc-core", category="model_checking", design_ref="DESIGN.md 3/C11",
+   technique="exhaustive product of recording configurations and of split points, differential bitwise comparison of equally-labelled frames of real runs",
+   text=("For each physics input every recording configuration (6 save intervals x temp/file output x probes on/off x 3 progress modes) is run with the real solver and each frame is compared bitwise with the "
+         "frame of the same step label in a reference configuration (equality is transitive, so all pairs are decided); for every split point of a fixed-step run the run is stopped, resumed from its returned "
+         "(or reloaded) solution, and each resumed frame j is compared bitwise with frame N1+j of the uninterrupted run, with and without screening."),
+   note="bitwise comparison through h5py; memory-only runs expose only the final state; resume part restricted to time-independent drives and fixed dt as the statement requires; physics inputs outside the alphabet are not covered"),
 }
